@@ -1,5 +1,5 @@
 SPECIFICATION Spec
 INVARIANT OnlyTheNegotiatedHandler NoHandlerWithoutPass RetryNeedsValidatedAccept EstablishedReachesHandler FilterAcceptReaches
-INVARIANT EstablishedOnlyIfAllAccept AcceptOnlyIfAllAccept BeforeRejectStops PreconditionsGate ShortCircuit RejectCodeSeen Decided
+INVARIANT EstablishedOnlyIfAllAccept AcceptOnlyIfAllAccept BeforeRejectStops PreconditionsGate ShortCircuit RejectCodeSeen ClosedGate Decided
 CHECK_DEADLOCK FALSE
 CONSTANT Scenarios <- FamFull
